@@ -63,6 +63,7 @@ type childSpec struct {
 	// AutoState > 0: the child first saves a state of ten arrays of AutoState integers through AutoSave into a fresh
 	// working directory, measures how long AutoLoad of it takes, then runs the program with AutoLoad on and
 	// MaxDuration = DurPct percent of that load time (at least 1 ms).  Bound: load time + MaxDuration + slack.
+	NoReg     bool `json:"no_reg,omitempty"` // Options.NoReg: loop variables and integer parameters in plain variables
 	AutoState int `json:"auto_state,omitempty"`
 	DurPct    int `json:"dur_pct,omitempty"`
 }
@@ -159,6 +160,7 @@ func childMain() {
 	o.MaxDepth = sp.MaxDepth
 	o.MaxDuration = time.Duration(sp.DurMs) * time.Millisecond
 	o.Compact = sp.Compact
+	o.NoReg = sp.NoReg
 	loadMs := 0.0
 	if sp.AutoState > 0 {
 		dir, err := os.MkdirTemp(".", "autostate")
@@ -361,7 +363,7 @@ var maxOverrun, maxRSSRatio, maxOverrunClean, maxRSSRatioClean float64
 
 // judge one child run; kind is the program family used in signatures
 func judge(c *Ctx, kind string, sp childSpec, r childResult, wantGuard string) {
-	cs := fmt.Sprintf("CHILD depth=%d dur=%dms cancel=%dms mem=%s api=%d autostate=%d durpct=%d compact=%v gen=%s n=%d src=%s", sp.MaxDepth, sp.DurMs, sp.CancelMs, r.memLimit, sp.ApiLimit, sp.AutoState, sp.DurPct, sp.Compact, sp.Gen, sp.N, Hx([]byte(trunc(sp.Src, 400))))
+	cs := fmt.Sprintf("CHILD depth=%d dur=%dms cancel=%dms mem=%s api=%d autostate=%d durpct=%d noreg=%v compact=%v gen=%s n=%d src=%s", sp.MaxDepth, sp.DurMs, sp.CancelMs, r.memLimit, sp.ApiLimit, sp.AutoState, sp.DurPct, sp.NoReg, sp.Compact, sp.Gen, sp.N, Hx([]byte(trunc(sp.Src, 400))))
 	c.Count("child:" + kind)
 	switch {
 	case r.killed:
@@ -760,6 +762,10 @@ func boundedFamilies() []prog {
 		{"forcond-with-forin", arr + "k=0; for k<6000 {k=k+1; for y=a {y}}; k", ""},
 		{"forN-finite", "n=0; for 14000000 {n=n+1}; n", ""},
 		{"forN-nested", "for 12000 {for 12000 {1}}", ""},
+		{"forN-empty", "for 14000 {for 14000 {}}", ""},
+		{"forrange-empty", "for i=0:15000 {for j=0:15000 {}}", ""},
+		{"forin-array-empty", "a=0:7000; for x=a {for y=a {}}", ""},
+		{"forin-array-comment", "a=0:7000; for x=a {for y=a { /* nothing */ }}", ""},
 		{"forN-continue", "for 9500 {for 9500 {continue}}", ""},
 		{"forrange-continue", "for i=0:9000 {for j=0:9000 {continue}}", ""},
 		{"forcond-continue", "n=0; for n<18000000 {n++; continue}; n", ""},
@@ -782,6 +788,44 @@ func boundedFamilies() []prog {
 		fs[i].want = "deadline error"
 	}
 	return fs
+}
+
+// Loops whose body gives the evaluator nothing to evaluate: empty, comment-only, a single literal, a nested empty loop.
+// The only evalInternal entry per iteration is then the body block itself (counted and list loops) or the condition
+// (cond loops): the context test must be reached through exactly that entry.  Huge counts, every loop form, top level
+// and inside a function, registers on and off, deadline and cancellation.
+type emptyLoop struct {
+	kind, src string
+	inFunc    bool
+}
+
+func emptyBodyLoops() []emptyLoop {
+	forms := []struct{ name, hdr string }{
+		{"count", "for 1000000000000"},
+		{"count-var", "for i = 1000000000000"},
+		{"range", "for i = 5:4000000000000000000"},
+		{"cond", "for true"},
+		{"cond-expr", "for 1 < 2"},
+		{"list-in-count", "a=[1,2,3]; for 1000000000000 { for x = a BODY }"},
+		{"count-in-list", "a=[1,2,3]; for x = a { for j = 1000000000000 BODY }"},
+		{"count-in-count", "for i = 1000000000000 { for j = 1000000000000 BODY }"},
+	}
+	bodies := []struct{ name, b string }{
+		{"empty", "{}"}, {"block-comment", "{ /* spin */ }"}, {"line-comment", "{ // spin\n }"}, {"literal", "{1}"},
+		{"nested-empty", "{ for 1000000000000 {} }"}, {"nested-empty-var", "{ for k = 1000000000000 {} }"},
+	}
+	var out []emptyLoop
+	for _, f := range forms {
+		for _, b := range bodies {
+			src := f.hdr + " " + b.b
+			if strings.Contains(f.hdr, "BODY") {
+				src = strings.Replace(f.hdr, "BODY", b.b, 1)
+			}
+			out = append(out, emptyLoop{"loop-" + f.name + "-" + b.name, src, false})
+			out = append(out, emptyLoop{"loop-" + f.name + "-" + b.name + "-func", "func spin(n){ " + src + "; n }; spin(3)", true})
+		}
+	}
+	return out
 }
 
 type cfg struct {
@@ -915,7 +959,7 @@ func runC09(c *Ctx) {
 		}
 	}
 	// cancellation instants: the same long-running programs under a sweep of deadlines
-	durs := []int{1, 2, 3, 5, 8, 13, 21, 34, 55, 89, 144, 200}
+	durs := []int{1, 3, 8, 21, 55, 144}
 	if c.Thorough() {
 		durs = nil
 		for d := 1; d <= 1000; d = d*5/4 + 1 {
@@ -929,6 +973,22 @@ func runC09(c *Ctx) {
 		for _, d := range durs {
 			sp := childSpec{Src: src.src, MaxDepth: 400, DurMs: d, ASLimit: asLimit}
 			judge(c, src.kind, sp, runChild(c, sp, memLimitStr, time.Duration(d)*time.Millisecond+12*time.Second), src.want)
+		}
+	}
+	// loops with nothing to evaluate in the body: every form x body, alternating registers on / off and deadline / cancellation
+	//   (quick: each (form, body) once, placement and options rotating; thorough: everything)
+	for i, el := range emptyBodyLoops() {
+		variants := []childSpec{
+			{Src: el.src, MaxDepth: 100, DurMs: 100, ASLimit: asLimit},
+			{Src: el.src, MaxDepth: 100, DurMs: 100, ASLimit: asLimit, NoReg: true},
+			{Src: el.src, MaxDepth: 100, CancelMs: 100, ASLimit: asLimit},
+			{Src: el.src, MaxDepth: 100, CancelMs: 100, ASLimit: asLimit, NoReg: true},
+		}
+		for vi, sp := range variants {
+			if !c.Thorough() && (el.inFunc != ((i/2)%2 == 0) || vi != (i/2)%4) {
+				continue
+			}
+			judge(c, el.kind, sp, runChild(c, sp, memLimitStr, 8*time.Second), "deadline")
 		}
 	}
 	// one finite long-running program per evaluator path: deadline and external cancellation
@@ -1074,6 +1134,8 @@ func replay(c *Ctx) {
 		switch k {
 		case "depth":
 			sp.MaxDepth, _ = strconv.Atoi(v)
+		case "noreg":
+			sp.NoReg = v == "true"
 		case "autostate":
 			sp.AutoState, _ = strconv.Atoi(v)
 		case "durpct":
